@@ -38,15 +38,15 @@ SPAN_LIMIT = 1 << 16
 DIAG_RE = re.compile(r"(?i)error|cannot|can't|couldn't|unknown|usage|illegal|invalid|fail|not |no ")
 
 PROGS = {
-    "msp430": ".msp430\n.org 0xf800\nstart:\n  mov.w #0x280, SP\n  mov.w #5, r5\nloop:\n  add.w r5, r6\n  dec r5\n  jnz loop\n  jmp start\n.org 0xfffe\n.dw start\n",
+    "msp430": ".msp430\n.org 0xffc0\nstart:\n  mov.w #0x280, SP\n  mov.w #5, r5\nloop:\n  add.w r5, r6\n  dec r5\n  jnz loop\n  jmp start\n.org 0xfffe\n.dw start\n",
     "68000": ".68000\n.org 0x1000\nstart:\n  move.w #5, d0\n  add.l d0, d1\n  nop\n  bra.s start\n.dc32 0x12345678\n",
     "avr8": ".avr8\n.org 0x10\nstart:\n  ldi r16, 5\n  add r17, r16\n  rjmp start\n",
     "mips": ".mips\n.org 0x100\nstart:\n  li $t0, 5\n  addu $t1, $t1, $t0\n  b start\n  nop\n.export start\n.entry_point start\n",
-    "z80": ".z80\n.org 0x10\nstart:\n  ld a, 5\n  add a, b\n  jp start\n.org 0x2000\n.db 1,2,3\n",
+    "z80": ".z80\n.org 0x10\nstart:\n  ld a, 5\n  add a, b\n  jp start\n.org 0x60\n.db 1,2,3\n",
     "propeller": ".propeller\n.org 4\nstart:\n  mov 5, #1\n  add 5, 6\n  jmp #start\n",
 }
 TYPES = ["hex", "srec", "elf", "wdc", "uf2", "amiga", "macho", "bin"]
-TI_TXT = "@f800\n31 40 80 02 35 40 05 00 06 55 15 83 fd 23 f9 3f\n@fffe\n00 f8\nq\n"
+TI_TXT = "@ffc0\n31 40 80 02 35 40 05 00 06 55 15 83 fd 23 f9 3f\n@fffe\n00 f8\nq\n"
 
 
 def tmpdir():
@@ -74,7 +74,7 @@ def make_seeds(exe_asm):
                 p = os.path.join(d, out)
                 if o.status == 0 and os.path.exists(p) and not o.san:
                     data = open(p, "rb").read()
-                    if 0 < len(data) <= 20000:
+                    if 0 < len(data) <= 6000:
                         seeds[(pn, t)] = data.decode("latin-1")
         seeds[("msp430", "txt")] = TI_TXT
     finally:
@@ -87,11 +87,11 @@ def make_seeds(exe_asm):
 BVALS = [0, 1, 2, 0x7f, 0x80, 0xff, 0x100, 0x7fff, 0x8000, 0xffff, 0x10000, 0x7fffffff, 0x80000000, 0xfffffffe, 0xffffffff]
 
 
-def field_mutations(data, step=1):
-    """Enumerate (label, mutated bytes) for binary files: every offset x width x value x byte order."""
-    n = len(data)
+def field_descs(n):
+    """Every (offset, width, value, byte order) of a binary file of n bytes - small tuples only; the mutated bytes are
+    built inside the worker (apply_field), never in the parent."""
     rel = [n - 1, n, n + 1, max(0, n - 4), n // 2]
-    for off in range(0, n, step):
+    for off in range(n):
         for w in (1, 2, 4):
             if off % w or off + w > n:
                 continue
@@ -99,10 +99,58 @@ def field_mutations(data, step=1):
                 if v >= (1 << (8 * w)):
                     continue
                 for bo in ("<", ">") if w > 1 else ("<",):
-                    b = struct.pack(bo + {1: "B", 2: "H", 4: "I"}[w], v).decode("latin-1")
-                    if data[off:off + w] == b:
-                        continue
-                    yield ("field/w%d" % w, off, data[:off] + b + data[off + w:])
+                    yield (off, w, v, bo)
+
+
+def sample_fields(rng, n, k):
+    per = 70
+    if n * per <= 2 * k:
+        return list(field_descs(n))[:max(k, 0) * 3]
+    out = set()
+    vals = BVALS + [n - 1, n, n + 1, max(0, n - 4), n // 2]
+    tries = 0
+    while len(out) < k and tries < 20 * k:
+        tries += 1
+        w = rng.choice((1, 2, 4))
+        off = rng.randrange(n)
+        off -= off % w
+        v = rng.choice(vals)
+        if off + w > n or v >= (1 << (8 * w)):
+            continue
+        out.add((off, w, v, rng.choice("<>") if w > 1 else "<"))
+    return sorted(out)
+
+
+def apply_field(data, off, w, v, bo):
+    b = struct.pack(bo + {1: "B", 2: "H", 4: "I"}[w], v).decode("latin-1")
+    return data[:off] + b + data[off + w:]
+
+
+SEEDS = {}
+
+
+def build_data(c):
+    """File content of a case: stored inline (witnesses, text formats) or rebuilt from the seed file and a small descriptor."""
+    if c.get("data") is not None or not c.get("fname"):
+        return c.get("data")
+    base = SEEDS[(c["prog"], c["fmt"])]
+    m = c["mut"]
+    if m[0] == "valid":
+        return base
+    if m[0] == "field":
+        return apply_field(base, m[1], m[2], m[3], m[4])
+    if m[0] == "trunc":
+        return base[:m[1]]
+    r = random.Random(m[1])
+    if m[0] == "bytes":
+        b = bytearray(base.encode("latin-1"))
+        for _k in range(r.choice([1, 2, 4, 16])):
+            b[r.randrange(len(b))] = r.randrange(256)
+        return b.decode("latin-1")
+    if m[0] == "garbage":
+        g = bytes(r.getrandbits(8) for _ in range(r.choice([1, 4, 16, 64, 600]))).decode("latin-1")
+        return base[:r.choice([0, 4, 8, 16, 52])] + g
+    raise ValueError(m)
 
 
 def text_mutations(fmt, text):
@@ -230,21 +278,26 @@ def run_case(item):
     d = tmpdir()
     try:
         fname = case.get("fname")
-        if fname and case.get("data") is not None:
+        data = build_data(case)
+        if fname and data is not None:
             with open(os.path.join(d, fname), "wb") as f:
-                f.write(case["data"].encode("latin-1", "replace"))
+                f.write(data.encode("latin-1", "replace"))
         for name, content in (case.get("files") or {}).items():
             with open(os.path.join(d, name), "wb") as f:
                 f.write(content.encode("latin-1", "replace"))
         stdin = case.get("stdin")
         o = proc.run([exe] + case["args"], cwd=d, cpu_s=CPU_S, fsize_mb=64, stdin_data=stdin if stdin is not None else "quit\n",
                      env=env(), max_out=1 << 18)
+        case = dict(case, _n=len(data or ""))
+        loaded = "Loaded " in o.stdout
+        started = loaded or "Type help" in o.stdout or "rror" in o.stdout or "Unknown" in o.stdout
+        status = o.status
         ev = judge(o, case)
+        del o.stdout, o.stderr
         if ev and ev[0][0] == "slow":
             ev = classify_hang(exe, d, case)
-        loaded = "Loaded " in o.stdout
-        return {"case": case, "ev": ev, "loaded": loaded, "status": o.status,
-                "started": loaded or "Type help" in o.stdout or "rror" in o.stdout or "Unknown" in o.stdout}
+        case.pop("_n", None)
+        return {"case": case, "ev": ev, "loaded": loaded, "status": status, "started": started}
     finally:
         shutil.rmtree(d, ignore_errors=True)
 
@@ -256,7 +309,7 @@ def judge(o, case):
     if o.san:
         k = o.san["kind"]
         if k in ("asan:rss-limit", "asan:oom"):
-            return [("viol", "memory/%s" % case["ccls"], "RSS cap (1.5 GB) exceeded: %s [file %d bytes]" % (k, len(case.get("data") or "")))]
+            return [("viol", "memory/%s" % case["ccls"], "RSS cap (1.5 GB) exceeded: %s [file %d bytes]" % (k, case.get("_n", 0)))]
         first = o.stderr[o.stderr.find("ERROR"):][:300].replace("\n", " | ") if "ERROR" in o.stderr else o.stderr[:300].replace("\n", " | ")
         return [("viol", "san/" + G.san_sig(o.san, o.stderr), "sanitizer report: %s" % first)]
     if o.timed_out or o.signal == signal.SIGXCPU:
@@ -296,7 +349,7 @@ def classify_hang(exe, d, case):
         i += 1
     o = proc.run([exe] + probe, cwd=d, cpu_s=CPU_S, fsize_mb=64, stdin_data=" \nquit\n", env=env(), max_out=1 << 16)
     if o.timed_out or o.signal == signal.SIGXCPU:
-        return [("viol", "hang/load/%s" % fmt, "loading a %d-byte %s file does not terminate within %d CPU-s" % (len(case.get("data") or ""), fmt, CPU_S))]
+        return [("viol", "hang/load/%s" % fmt, "loading a %d-byte %s file does not terminate within %d CPU-s" % (case.get("_n", 0), fmt, CPU_S))]
     m = re.search(r"from 0x([0-9a-f]+) to 0x([0-9a-f]+)", o.stdout)
     if m:
         lo, hi = int(m.group(1), 16), int(m.group(2), 16)
@@ -340,11 +393,12 @@ def gen_cases(run, seeds):
     cases = []
     keys = sorted(seeds)
 
-    def add(fmt, pn, data, mcls, kind, cpu, region=0, bulk=False, cid=None):
+    def add(fmt, pn, mut, mcls, kind, cpu, region=0, bulk=False, data=None):
+        """mut = small descriptor (the worker rebuilds the bytes); data only for the tiny text formats"""
         fname = fname_for(fmt, pn)
         args, stdin, ccls = cmdline(rng, fname, fmt, cpu, kind, bulk)
-        cases.append({"id": cid or "%s/%s/%s" % (fmt, mcls, ccls), "fmt": fmt, "prog": pn, "mcls": mcls, "ccls": ccls, "cpu": cpu, "fname": fname,
-                      "data": data, "args": args, "stdin": stdin, "bulk": bulk, "region": region})
+        cases.append({"id": "%s/%s/%s" % (fmt, mcls, ccls), "fmt": fmt, "prog": pn, "mcls": mcls, "ccls": ccls, "cpu": cpu, "fname": fname,
+                      "mut": mut, "data": data, "args": args, "stdin": stdin, "bulk": bulk, "region": region})
 
     def pick_cpu(pn, p_native=0.5):
         r = rng.random()
@@ -361,23 +415,22 @@ def gen_cases(run, seeds):
     kinds = ["disasm", "session", "disasm", "session", "disasm_range", "opts"]
     # unmutated files: every cpu flag x disasm, plus sessions
     for (pn, t) in keys:
-        data = seeds[(pn, t)]
-        for cpu in ([pn, None] + (UTIL_CPUS if (not quick or (pn, t) in (("msp430", "hex"), ("68000", "elf"))) else [])):
-            add(t, pn, data, "valid", "disasm", cpu)
+        for cpu in ([pn, None] + (UTIL_CPUS if (not quick or (pn, t) in (("msp430", "hex"), ("mips", "elf"))) else [])):
+            add(t, pn, ("valid",), "valid", "disasm", cpu)
         for i in range(1 if quick else 8):
-            add(t, pn, data, "valid", rng.choice(["session", "opts", "disasm_range"]), pick_cpu(pn, 0.7))
-        add(t, pn, data, "valid", "session", pn, bulk=True)
+            add(t, pn, ("valid",), "valid", rng.choice(["session", "opts", "disasm_range"]), pick_cpu(pn, 0.7))
+        add(t, pn, ("valid",), "valid", "session", pn, bulk=True)
     # sessions without a file, per cpu
     for cpu in UTIL_CPUS + [None]:
         for i in range(1 if quick else 6):
             a = (["-" + cpu] if cpu else [])
             cases.append({"id": "nofile/session", "fmt": "none", "prog": None, "mcls": "nofile", "ccls": "session", "cpu": cpu, "fname": None, "data": None,
                           "args": a, "stdin": gen_session(rng), "bulk": False, "region": 0})
-    # mutated binary formats
+    # mutated files
     for (pn, t) in keys:
-        data = seeds[(pn, t)]
+        n = len(seeds[(pn, t)])
         if t in ("hex", "srec", "txt"):
-            muts = list(text_mutations(t, data))
+            muts = list(text_mutations(t, seeds[(pn, t)]))      # files of < 100 bytes: a few hundred short strings
             if quick:
                 # the whole-file specials and the count-field edits of the first record are always kept (deterministic part)
                 keep = [m for m in muts if pn == "msp430" and (m[0].startswith("line/") and m[0] not in ("line/del", "line/dup", "line/long", "line/nonl")
@@ -386,34 +439,25 @@ def gen_cases(run, seeds):
             elif pn != "msp430" and len(muts) > 250:
                 muts = rng.sample(muts, 250)
             for label, li, new in muts:
-                add(t, pn, new, label, rng.choice(kinds), pick_cpu(pn), region=li // 4)
+                add(t, pn, None, label, rng.choice(kinds), pick_cpu(pn), region=li // 4, data=new)
         else:
             if quick:
-                muts = list(field_mutations(data))
-                muts = rng.sample(muts, min(len(muts), 40 if pn in ("msp430", "mips") else 8))
+                k = 40 if pn in ("msp430", "mips") else 8
             elif pn in ("msp430", "mips") and t != "bin":
-                muts = list(field_mutations(data))
-                if len(muts) > 1000:
-                    muts = rng.sample(muts, 1000)
+                k = 1000
             else:
-                muts = list(field_mutations(data))
-                muts = rng.sample(muts, min(len(muts), 200))
-            for label, off, new in muts:
-                add(t, pn, new, label, rng.choice(kinds), pick_cpu(pn), region=off // 64)
+                k = 200
+            for off, w, v, bo in sample_fields(rng, n, k):
+                add(t, pn, ("field", off, w, v, bo), "field/w%d" % w, rng.choice(kinds), pick_cpu(pn), region=off // 64)
         # truncation
-        n = len(data)
         cuts = range(0, n) if (not quick and n <= 400) else sorted(set(rng.randrange(n) for _ in range(4 if quick else 100)))
         for cut in cuts:
-            add(t, pn, data[:cut], "truncate", rng.choice(["disasm", "session"]), pick_cpu(pn), region=cut // 64)
+            add(t, pn, ("trunc", cut), "truncate", rng.choice(["disasm", "session"]), pick_cpu(pn), region=cut // 64)
         # random byte edits / garbage with the right extension
         for i in range(3 if quick else 60):
-            b = bytearray(data.encode("latin-1"))
-            for _k in range(rng.choice([1, 2, 4, 16])):
-                b[rng.randrange(len(b))] = rng.randrange(256)
-            add(t, pn, b.decode("latin-1"), "bytes", rng.choice(kinds), pick_cpu(pn), region=99)
+            add(t, pn, ("bytes", rng.getrandbits(40)), "bytes", rng.choice(kinds), pick_cpu(pn), region=99)
         for i in range(1 if quick else 10):
-            g = bytes(rng.getrandbits(8) for _ in range(rng.choice([1, 4, 16, 64, 600]))).decode("latin-1")
-            add(t, pn, data[:rng.choice([0, 4, 8, 16, 52])] + g, "garbage", rng.choice(kinds), pick_cpu(pn), region=98)
+            add(t, pn, ("garbage", rng.getrandbits(40)), "garbage", rng.choice(kinds), pick_cpu(pn), region=98)
     # odd command lines
     hexd = seeds.get(("msp430", "hex"), ":00000001FF\n")
     odd = {"none": [], "h": ["-h"], "disasm-nofile": ["-disasm"], "run-nofile": ["-run"], "disasm_range-noarg-file-first": ["f.hex", "-disasm_range", "0-1"],
@@ -446,7 +490,10 @@ def hang_class(c):
 # ------------------------------------------------------------------ main
 
 def slim(c):
-    return {k: v for k, v in c.items() if k in ("id", "fmt", "prog", "mcls", "ccls", "cpu", "fname", "data", "files", "args", "stdin", "bulk", "region")}
+    """self-contained witness: the (small) file content is materialised here, for violating cases only"""
+    w = {k: v for k, v in c.items() if k in ("id", "fmt", "prog", "mcls", "ccls", "cpu", "fname", "data", "files", "args", "stdin", "bulk", "region")}
+    w["data"] = build_data(c)
+    return w
 
 
 def consume(run, r, hangs):
@@ -484,7 +531,10 @@ def main(run):
     run.build("san")
     exe = core.ARTS["san"]["naken_util"]
     seeds = make_seeds(core.ARTS["san"]["naken_asm"])
+    SEEDS.clear()
+    SEEDS.update(seeds)
     run.cov["seed_files"] = len(seeds)
+    run.cov["seed_file_bytes_max"] = max(len(v) for v in seeds.values())
     run.cov["seed_formats"] = sorted(set(t for _, t in seeds))
     cases = gen_cases(run, seeds)
     random.Random(run.seed).shuffle(cases)
